@@ -1,12 +1,18 @@
 /-
   C07 — diffing is a pure, deterministic function of its inputs  (PARTIAL).
   In Lean every model function is a function, so determinism of the MODEL is not a theorem worth stating; what can
-  be checked mechanically is that the code contains no hash-order dependence the model does not know about:
-  the table of every place where the package iterates a `set`/`frozenset` is regenerated from /repo's source by an
-  `ast` walk on every run (GtModel.Gen.SetSites) and must be contained in the REVIEWED list below.  A new
-  hash-ordered loop (like the one behind the fixed defect D9, `FixedKeyDictNode._child_edits` iterating a set of
-  removed pairs) makes `set_sites_reviewed` fail; the check then searches for a failing input by running the real
-  command under several PYTHONHASHSEED values (stream `determinism`).
+  be checked mechanically is a TRIPWIRE for a LISTED set of syntactic forms of hash-order dependence (NOT every
+  such dependence: the forms are enumerated in the comment in front of `_set_sites` / `_nondet_sites` in
+  harness/gentables.py - set displays / constructors, names, parameters and attributes assigned or annotated as
+  sets, package functions that return one, dict-view algebra, module- and class-level set constants; iterated by
+  for / comprehension / yield from / list / tuple / iter / next / enumerate / zip / map / filter / join / `*`, popped,
+  or sorted / min / max with a key).  The table of the places where the package does one of these is regenerated
+  from /repo's source by an `ast` walk on every run (GtModel.Gen.SetSites) and must be contained in the REVIEWED
+  list below.  A new hash-ordered loop of one of these forms (like the one behind the fixed defect D9,
+  `FixedKeyDictNode._child_edits` iterating a set of removed pairs) makes `set_sites_reviewed` fail; the check then
+  searches for a failing input by running the real command under several PYTHONHASHSEED values (stream
+  `determinism`).  A dependence written in a form the walk does not know (a set reaching a loop through a container
+  of another library, `getattr`, `exec`, a C extension ...) is found, if at all, only by the runs.
   NOT provable here (runtime): allocation-order / `id()`-based orders (intervaltree's internal set inside
   `make_distinct`, `BoundedComparator` tie-breaks), absence of hidden global state across repeated invocations,
   and that `diff()` leaves its inputs untouched (values are immutable in the model) — all covered by the
@@ -19,14 +25,20 @@ namespace GtModel.C07
 
 /-- reviewed set-iteration sites, each with the reason it cannot influence the output order -/
 def reviewed : List (String × String × String × String) := [
-  -- `Matching` is only used by WeightedBipartiteMatcherPARTIAL_IMPLEMENTATION (never instantiated by the engine);
-  -- `bounds` sums (commutative), `__repr__` is debug text
+  -- `Matching` / `PathSet` / `MatchingNode` are only used by WeightedBipartiteMatcherPARTIAL_IMPLEMENTATION (never instantiated by
+  -- the engine; the name occurs in matching.py only); `bounds` sums (commutative), `__repr__` is debug text.  The `.edges()` rows
+  -- are flagged by the NAME `edges` (some `edges` in the package returns a set): loops of the same partial matcher.
   ("matching.py", "__iter__", "iter", "self._edges"),
   ("matching.py", "__repr__", "comprehension", "self._edges"),
   ("matching.py", "bounds", "comprehension", "self._edges"),
+  ("matching.py", "free_destinations", "for", "destination.edges()"),
+  ("matching.py", "free_sources", "for", "source.edges()"),
+  ("matching.py", "symmetric_difference", "for", "ret._edges"),
   ("matching.py", "tighten_bounds", "for", "r"),
-  -- ObjectSet iteration: used for membership bookkeeping only
+  ("matching.py", "tighten_bounds", "for", "y.edges()"),
+  -- ObjectSet iteration: used for membership bookkeeping only; `__str__` is debug text
   ("object_set.py", "__iter__", "for", "self.objs"),
+  ("object_set.py", "__str__", "map", "self.objs"),
   -- ANSI/combining-mark contexts add/remove marks to/from a set: order-insensitive set operations
   ("printer.py", "__enter__", "for", "self.marks"),
   ("printer.py", "__exit__", "for", "self.marks - self._state_before"),
@@ -35,7 +47,7 @@ def reviewed : List (String × String × String × String) := [
   ("printer.py", "marks_str", "join", "self._marks")
 ]
 
-/-- every hash-ordered iteration in the current source has been reviewed -/
+/-- every hash-ordered iteration OF THE LISTED SYNTACTIC FORMS in the current source has been reviewed -/
 theorem set_sites_reviewed : ∀ s ∈ Gen.setSites, s ∈ reviewed := by decide
 
 -- the check is not vacuous: the table is non-empty, and an unreviewed site is rejected
@@ -47,12 +59,23 @@ example : ¬ (("graphtage.py", "_child_edits", "for", "unshared_kvps") ∈ revie
 example : Gen.setSites = reviewed := by decide
 
 /-- reviewed sources of run-to-run variation or hidden state other than hash order (regenerated table
-    `Gen.nondetSites`: wall clock, randomness, uninitialised memory, environment, `id()`, interpreter-global
-    settings, `global` statements).  The package currently uses NO clock, NO randomness, NO uninitialised memory and
-    NO environment variable; the `id()` uses are identity equality / identity hashing (never an ordering that reaches
-    the output, except the documented tie-break of `BoundedComparator.__lt__`, which `bounds.sort` alone uses and no
-    diff path calls), and the one `global` is the initialise-once flag of the colorama fix. -/
+    `Gen.nondetSites`; a tripwire for the syntactic forms listed in front of `_nondet_sites` in harness/gentables.py:
+    imports of and calls through time / datetime / random / secrets / uuid / threading / multiprocessing / concurrent /
+    asyncio / signal / tempfile / socket / getpass / platform under any alias, names imported from them, `os.<x>` other
+    than `os.path` and constants, `np.empty`, `sys.set*` / `sys.argv`, every `id()`, `hash()` / `id` / `repr` /
+    `object.__repr__` in a sort key or ordering comparison, `global` statements, module-level containers mutated inside
+    a function, `functools.lru_cache` / `cache`).  The package currently uses NO clock, NO randomness, NO uninitialised
+    memory, NO environment variable and NO thread; the `id()` uses are identity equality / identity hashing (never an
+    ordering that reaches the output, except the documented tie-break of `BoundedComparator.__lt__`, which `bounds.sort`
+    alone uses and no diff path calls), and the one `global` is the initialise-once flag of the colorama fix. -/
 def reviewedNondet : List (String × String × String × String) := [
+  -- the command line itself (`main(argv = sys.argv)`): an INPUT of the run, not hidden state
+  ("environment", "__main__.py", "main", "sys.argv"),
+  -- `utils.Tempfile` (holds a copy of standard input when a path argument is `-`): the random file NAME can appear only in the
+  -- loader's error message on standard error for unparsable standard input, never in the diff; the file is removed on exit
+  ("environment", "utils.py", "__enter__", "tf.NamedTemporaryFile"),
+  ("environment", "utils.py", "__exit__", "os.unlink"),
+  ("environment-import", "utils.py", "<module>", "import tempfile as tf"),
   ("global-statement", "printer.py", "_init_colorama", "_COLORAMA_INITIALIZED"),
   ("id", "bounds.py", "__lt__", "id(other)"),
   ("id", "bounds.py", "__lt__", "id(self)"),
@@ -63,14 +86,24 @@ def reviewedNondet : List (String × String × String × String) := [
   ("id", "fibonacci.py", "__init__", "id(key)"),
   ("id", "object_set.py", "__eq__", "id(other.obj)"),
   ("id", "object_set.py", "__eq__", "id(self.obj)"),
-  ("id", "object_set.py", "__hash__", "id(self.obj)")
+  ("id", "object_set.py", "__hash__", "id(self.obj)"),
+  -- import-time registries, filled once while the package is imported (enum members, formatter classes, file types, decorated
+  -- functions) and only read afterwards: the same content in every process, no growth across invocations
+  ("module-state", "expressions.py", "__init__", "OPERATORS_BY_NAME[...] ="),
+  ("module-state", "formatter.py", "__init__", "FORMATTERS.append"),
+  ("module-state", "graphtage.py", "__init__", "FILETYPES_BY_MIME[...] ="),
+  ("module-state", "graphtage.py", "__init__", "FILETYPES_BY_TYPENAME[...] ="),
+  ("module-state", "printer.py", "only_ansi", "ONLY_ANSI_FUNCS.add")
 ]
 
 /-- tripwire: a new use of the clock, of randomness, of `np.empty`, of the environment, of `id()`, of
-    `sys.setrecursionlimit` or of a `global` statement anywhere in the package breaks this obligation; the check then
-    searches for a failing input with the determinism stream and otherwise reports no-failing-input-found -/
+    `sys.setrecursionlimit`, of a `global` statement or of a module-level cache, WRITTEN IN ONE OF THE LISTED FORMS, anywhere
+    in the package breaks this obligation; the check then searches for a failing input with the determinism stream and
+    otherwise reports no-failing-input-found -/
 theorem nondet_sites_reviewed : ∀ s ∈ Gen.nondetSites, s ∈ reviewedNondet := by decide
 
 example : ¬ (("clock", "bounds.py", "make_distinct", "time.monotonic") ∈ reviewedNondet) := by decide
+example : ¬ (("module-state", "graphtage.py", "_child_edits", "_SEEN_KEYS.setdefault") ∈ reviewedNondet) := by decide
+example : ¬ (("hash-order", "graphtage.py", "_child_edits", "key= hash(str(k.key.object))") ∈ reviewedNondet) := by decide
 
 end GtModel.C07
